@@ -103,7 +103,7 @@ def check_function(res: Result, name: str, fn_ast: L.Fn, allf, compiled: dict, w
             res.extra["disagreements_checked"] = res.extra.get("disagreements_checked", 0) + 1
             cargs = [V.Con("data", V.data_from_json(a)) for a in aj]
             cenv = {n: L.from_data(t, a.v) for (n, t), a in zip(fn_ast.params, cargs)}
-            sem2 = L.Sem(allf, width)
+            sem2 = L.Sem(allf, width, unroll_extra=60)
             cv, ca = sem2.eval(fn_ast.body, cenv)
             ca = z3.simplify(ca)
             ref_desc = "aborts" if z3.is_true(ca) else f"returns {z3.simplify(cv)}"
@@ -120,7 +120,7 @@ def check_function(res: Result, name: str, fn_ast: L.Fn, allf, compiled: dict, w
             if agrees is False:
                 bad = (kind, aj, f"native: {no[0]} {json.dumps(no[1])[:160]}; reference {ref_desc}")
                 break
-            if agrees is True:
+            if agrees is True and not sem.hit_bound:
                 res.mismatches.append(f"{name}: solver model not reproduced natively")
             n_und += 1
     if bad:
